@@ -269,7 +269,7 @@ func (g *verifGhost41) step() {
 func verifHarness_C18_Sequence41() {
 	k := 3
 	if rt.Tier() > 0 {
-		k = 5
+		k = 4 // (5 operations do not finish in two hours)
 	}
 	rt.Bound("operations_after_prefix", k)
 	rt.MustCover("41:open", "41:open-claim-fh", "41:open-claim-previous", "41:open-claim-previous-delegation", "41:open-upgrade", "41:close", "41:downgrade", "41:lock-new-owner", "41:locku", "41:free-stateid", "41:free-stateid-locks-held", "41:new-incarnation", "41:lease-expired", "41:lease-not-expired", "41:unlinked-still-reachable", "41:destroy-session")
